@@ -191,6 +191,9 @@ func (e *vEnv) Check(readData bool) (vOut, error) {
 }
 
 func (e *vEnv) Prune(opts PruneOptions) error {
+	if opts.MaxUnused == "" {
+		opts.MaxUnused = "5%"
+	}
 	_, err := e.call(e.gopts, func(ctx context.Context, gopts global.Options) error {
 		return runPrune(ctx, opts, gopts, gopts.Term)
 	})
@@ -198,6 +201,9 @@ func (e *vEnv) Prune(opts PruneOptions) error {
 }
 
 func (e *vEnv) Forget(opts ForgetOptions, popts PruneOptions, args ...string) (vOut, error) {
+	if popts.MaxUnused == "" {
+		popts.MaxUnused = "5%"
+	}
 	return e.call(e.gopts, func(ctx context.Context, gopts global.Options) error {
 		return runForget(ctx, opts, popts, gopts, gopts.Term, args)
 	})
